@@ -1249,13 +1249,13 @@ class Transformer:
                     valid = False
                     _add_reason(
                         removed_policies, policy_name,
-                        f"invalid AT time '{at_time}'" % at_time)
+                        f"invalid AT time '{at_time}'")
                     break
                 if at_seconds < 0:
                     valid = False
                     _add_reason(
                         removed_policies, policy_name,
-                        f"negative AT time '{at_time}'" % at_time)
+                        f"negative AT time '{at_time}'")
                     break
 
                 at_seconds_truncated = truncate_to_granularity(
